@@ -18,6 +18,13 @@ TRUSTED_BASE = [
     "hand-written Lean model GFO/Model/* where the correspondence did not exercise it",
     "Python harness (capture wrappers, canonicalisation, protocol encoder, monitors) and the native driver's I/O glue + Lean compiler",
     "oracle inputs: objective/constraint determinism, RNG contracts, float expressions inside backends, sklearn/scipy, numpy/pandas containers",
+    "translators (harness/pytolean.py, pydriver.py, pystop.py, translators.py): the mapping tables from Python statement / expression forms to Lean terms "
+    "(attribute -> model field, comparison -> IEEE comparison on F, truthiness); what they generate is PROVED equal to the hand-written model, "
+    "what they map it from is trusted to mean what the table says",
+    "complete optimizer models (17 of 22): the oracle tape - outputs of the two generators, numpy's argsort (checked to be a descending arrangement), "
+    "constraint verdicts, float vectors of moves - is recorded by pass-through wrappers installed from outside and consumed in program order with the "
+    "arguments of the real calls checked; the hypotheses TapeOK (random positions are positions of the space, drawn vectors are nan-free, the constraint is "
+    "a function of the position) are assumptions about those libraries and the user's constraint",
 ]
 
 
@@ -119,6 +126,17 @@ class Check:
             else:
                 self.broken.append(dict(kind="audit", name=t, detail=f"axioms {sorted(axs - ALLOWED_AXIOMS)}"))
         self.discharged = good
+        # thorough tier: the toolchain's independent re-checker replays the compiled declarations of the property modules
+        if C.tier() == "thorough":
+            try:
+                q = subprocess.run(["lake", "env", "leanchecker", *self.props_modules], cwd=C.LEAN, capture_output=True, text=True, timeout=1800)
+                self.notes.append(f"leanchecker {' '.join(self.props_modules)}: rc={q.returncode}")
+                if q.returncode != 0:
+                    self.broken.append(dict(kind="audit", name="leanchecker", detail=(q.stdout + q.stderr)[-1500:]))
+            except subprocess.TimeoutExpired:
+                raise C.Infra("leanchecker timed out")
+            except FileNotFoundError:
+                self.notes.append("leanchecker not found on PATH: skipped")
         return not self.broken
 
     def stage(self, name, fn, *a, **k):
